@@ -98,8 +98,8 @@ def rule_J1(ctx):
                 if field in ('immutable', 'modified_length'):
                     # only reads on BitStore-like receivers matter; MXFPFormat.mxfp_overflow etc. are other fields
                     pass
-                if root.cls in classes or ctx.rk(root.key) in table:
-                    r.ok(f'{f.key}:{field}', reason=ctx.rk(root.key) in table)
+                if root.cls in classes or ctx.reason_key(table, root.key) is not None:
+                    r.ok(f'{f.key}:{field}', reason=ctx.reason_key(table, root.key) is not None)
                 elif field == 'immutable' and _sharing_logic_read(f, x):
                     r.ok(f'{f.key}:{field}', {'instance': f.key, 'read': norm(x), 'verdict': 'test of a copy-if-flagged / assert (sharing logic)'})
                 else:
@@ -135,7 +135,7 @@ def rule_J2(ctx):
                         rcache[(n[0], field)] = field_reads(ctx, n, field)
                     rd = rcache[(n[0], field)]
                     # writes are fine (new objects start at 0); the repr helper is the documented reader
-                    if rd and not (field == '_filename' and ctx.rk(n[0]) == 'bits:Bits._repr'):
+                    if rd and not (field == '_filename' and 'bits:Bits._repr' in ctx.rks(n[0])):
                         bad = (n, field, rd[0])
                         break
                 if bad:
@@ -301,8 +301,8 @@ def rule_D1(ctx):
             name = 're-raise ' + name
         if name in DOCUMENTED:
             r.ok(f'{key}:{name}')
-        elif (ctx.rk(key), name) in RAISE_REASONS:
-            key = ctx.rk(key)
+        elif ctx.reason_key(RAISE_REASONS, key, name) is not None:
+            key = ctx.reason_key(RAISE_REASONS, key, name)[0]
             used_reasons.add((key, name))
             r.ok(f'{key}:{name}', reason=True, sample={'instance': key, 'raises': name, 'reason': RAISE_REASONS[(key, name)]})
         else:
